@@ -275,7 +275,7 @@ func (m *Model) createOrAddMode(mode *traits.ElectricMode) (*traits.ElectricMode
 }
 
 // DeleteMode will remove the mode with the given Id from the device.
-// If the mode does not exist, then ErrModeNotFound is returned.
+// If the mode does not exist, then ErrModeNotFound is returned, unless resource.WithAllowMissing(true) is passed.
 // If the mode specified is the active mode, then ErrDeleteActiveMode is returned and the mode is not deleted.
 // Otherwise, the operation succeeded and nil is returned.
 func (m *Model) DeleteMode(id string, opts ...resource.WriteOption) error {
@@ -290,15 +290,12 @@ func (m *Model) deleteMode(id string, opts ...resource.WriteOption) error {
 		return ErrDeleteActiveMode
 	}
 
-	msg, err := m.modes.Delete(id, opts...)
-	if err != nil {
-		return err
-	}
-	if msg == nil {
+	_, err := m.modes.Delete(id, opts...)
+	if status.Code(err) == codes.NotFound {
 		return ErrModeNotFound
 	}
-
-	return nil
+	// a nil result with a nil error means the mode was absent and resource.WithAllowMissing(true) was passed
+	return err
 }
 
 // UpdateMode will modify one of the modes stored in this device.
